@@ -676,16 +676,33 @@ def typedView (d : ArrayData) (utf8 : Bool) : Res :=
     errIf (d.nulls.isSome && d.len != views.length / 16)
   | [] => .panic
 
+/-- `FixedSizeBinaryArray::try_new(size, values, nulls)` -/
+def typedFsb (d : ArrayData) (n : Nat) : Res :=
+  match d.buffers with
+  | vals :: _ =>
+    (typedNullsOk d).andThen fun _ =>
+    if n = 0 then errIf (!vals.isEmpty)
+    else errIf (d.nulls.isSome && d.len != vals.length / n)
+  | [] => .panic
+
+/-- `PrimitiveArray::<T>::try_new(ScalarBuffer::from(values), nulls)` -/
+def typedPrim (d : ArrayData) (w : Nat) : Res :=
+  match d.buffers with
+  | vals :: _ => (typedNullsOk d).andThen fun _ => errIf (d.nulls.isSome && d.len != vals.length / w)
+  | [] => .panic
+
 /-- length a typed constructor derives from its components (`none`: taken from the layout) -/
 def typedLen (kind : String) (d : ArrayData) : Option Nat :=
   match kind, d.type with
-  | "bytes", .utf8 l | "bytes", .binary l | "list", .list l _ _ =>
+  | "bytes", .utf8 l | "bytes", .binary l | "list", .list l _ _ | "map", .list l _ _ =>
     d.buffers.head?.map (fun b => b.length / offW l - 1)
   | "fsl", .fsl k _ _ =>
     if k = 0 then some (if d.nulls.isSome then d.len else 0) else d.children.head?.map (fun c => c.len / k)
   | "dict", .dict kw _ _ => d.buffers.head?.map (fun b => b.length / kw)
   | "union", _ => d.buffers.head?.map (·.length)
   | "view", .view _ => d.buffers.head?.map (fun b => b.length / 16)
+  | "fsbin", .fsb n => if n = 0 then some (if d.nulls.isSome then d.len else 0) else d.buffers.head?.map (fun b => b.length / n)
+  | "prim", .prim w => d.buffers.head?.map (fun b => b.length / w)
   | _, _ => none
 
 /-- dispatch on the harness `kind` -/
@@ -695,12 +712,16 @@ def typedModel (kind : String) (d : ArrayData) : Res :=
   | "bytes", .utf8 l => typedBytes d l true
   | "bytes", .binary l => typedBytes d l false
   | "list", .list l item n => typedList d l item n
+  -- `MapArray::try_new`: the `GenericListArray` checks with a non-nullable entries field
+  | "map", .list false item false => typedList d false item false
   | "fsl", .fsl k item n => typedFsl d k item n
   | "struct", .struct fs => typedStruct d fs
   | "dict", .dict kw s _ => typedDict d kw s
   | "run", .ree rw _ => typedRun d rw
   | "union", .union dense fs => typedUnion d dense fs
   | "view", .view u => typedView d u
+  | "fsbin", .fsb n => typedFsb d n
+  | "prim", .prim w => typedPrim d w
   | _, _ => .err
 
 end ArrowModel.C09
